@@ -372,7 +372,27 @@ def generate(run_seed, deep=False):
                 evaluated[j] = True
         if not live and len(ops) >= 8 and sc.random() < 0.3:
             break
+    np_star_faults(st["np_star"], ops)
     return cfg, ops
+
+
+def np_star_faults(f, ops):
+    """Filler calls that die inside one of the library's numpy calls (seam "np.*": a failing allocation or the user's
+    Ctrl-C), decided by a stream of its own after the history was generated.  Evaluations of a signature and the
+    members of a non-degeneracy pair are never touched."""
+    rate = f.choice([0, 0.05, 0.15, 0.3])
+    for rec in ops:
+        if rec.get("op") != "call":
+            continue
+        r, r2, k, e = f.random(), f.random(), 1 + int(f.expovariate(1 / 5.0)), f.choice(["MemoryError", "KeyboardInterrupt"])
+        if "sig" in rec or "nd" in rec or any(rec.get(x) for x in ("between_nd", "burst", "nd_burst")):
+            continue
+        if rec.get("fail") == "seam.raise":
+            if r2 < 0.5:
+                rec["arm"] = ["np.*", k, e]
+        elif rec.get("fail") is None and rec.get("arm") is None and r < (rate * 2 if rec.get("on_shared") else rate):
+            rec["arm"] = ["np.*", k, e]
+            rec["fail"] = "seam.raise"
 
 
 # ---------------------------------------------------------------------------
